@@ -15,7 +15,7 @@ HARNESSES = (('normalize_name', 'normalize_name_fold')
              + tuple('column_' + d for d in D) + ('table_ddl',)
              + ('order3', 'order_qualified', 'order4_a', 'order4_b', 'order4_c', 'order4_d')
              + tuple('mapping_rel_' + d for d in D) + tuple('mapping_attr_' + d for d in D)
-             + ('oracle_auto_pk_names', 'oracle_auto_pk_names_owner'))
+             + ('mapping_inherit', 'real_limits', 'oracle_auto_pk_names', 'oracle_auto_pk_names_owner'))
 
 
 def classify(spec, cex):
